@@ -33,6 +33,7 @@ UNDECIDED = []
 ASSUMPTIONS = ["TreapItem implementations supplied by the user are safe code", "public fields of TreapNode are only written by safe code"]
 FIXTURES = [
     ("c17_bad_static_mut", "bad", ["U1", "U2"]),
+    ("c17_bad_tls_init_static_mut", "bad", ["U1", "U2"]),
     ("c17_bad_atomic_rmw", "bad", ["U1b"]),
     ("c17_good_thread_local", "good", []),
     ("c17_good_mutex", "good", []),
